@@ -104,8 +104,11 @@ Definition init (n : nat) (m : Z) : state := Build_state (repeat call0 n) [] [] 
 
 (* how request_handler ends: KOk = returned (OK trailers unless already sent); KErr = GRPCError / other
    Exception / deadline / unary reply missing (non-OK trailers then RST); KBase = a BaseException that is
-   not an Exception reached Stream.__aexit__, or the task was cancelled before its first step: nothing
-   is sent *)
+   not an Exception left request_handler, so nothing is sent: it came out of the handler body (D4), or it
+   is a cancellation that landed INSIDE Stream.__aexit__ while send_trailing_metadata was waiting for
+   write_ready (server transport paused) after the body had returned or raised an Exception (D48), or
+   the task was cancelled before its first step.  (send_headers waits first and then sends END_STREAM and
+   the RST without suspending, so the terminal response is sent completely or not at all.) *)
 Inductive exitk := KOk | KErr | KBase.
 
 Inductive op :=
